@@ -58,6 +58,19 @@ CHECKS["C12"] = dict(
          "constructing XMLResource with the propagated settings.",
     ref="DESIGN.md 5/C12")
 
+CHECKS["C11"] = dict(
+    technique=TECH + " - XMLResource loading over a symbolic event script with symbolic integer limits (iterparse= stub); z3 integer query "
+                     "for the recursion budget; finite-choice lexical mutations for exception escape",
+    category="model_checking",
+    text="Limits: for every well-nested event script up to the bound and every pair of limits in the range, XMLResourceExceeded is raised "
+         "exactly when depth/element count exceed the limits (eager and lazy), all paths confirmed. Recursion budget: frames per nesting "
+         "level measured on the live code, z3 searches a depth within MAX_XML_DEPTH exhausting the recursion limit; the model is replayed on "
+         "a real document. Exception escape: for each selected builtin type, every text of <=2 (3 thorough) tokens from a boundary token "
+         "list ends in a verdict or a library exception.",
+    note="The expat event stream is replaced by the public iterparse= stub (documented event order assumed); garbled byte streams outside. "
+         "Token texts are finite-choice. Known finding: RecursionError from depth 496 (region d>=496 subtracted from the z3 search).",
+    ref="DESIGN.md 5/C11")
+
 NOT_APPLICABLE = {
     "C18": "quantifies over thread interleavings; no engine of this family here executes Python threads symbolically (CrossHair is "
            "single-threaded); see DESIGN.md section 6",
